@@ -30,9 +30,14 @@ func checkC13(c *Ctx) {
 	c.Run.Assume = []string{"the order is the derived Compare of the same package (C03 decides whether that one is right)"}
 	c.Run.Floor = 40
 	sel := shapeSel{
-		ExtraTypes: commonExtras,
-		Forms:      []string{"top"}, QuickDeep: 50, QuickRand: 16, ThorRand: 300, BatchSize: 22,
-		KeepShape: func(t *pgen.Type) bool { return behaviouralShape(t) && !containsCustom(t) },
+		// the order is whatever the derived Compare says, so element types with hand-written Compare
+		// methods below the top level are in scope here: one that is case-insensitive (an order different
+		// from the structural one) and one that returns differences instead of -1/0/+1
+		ExtraTypes: func(s *pgen.Std) []*pgen.Type {
+			return append(commonExtras(s), s.SCi, s.SCv, s.SD, pgen.Ptr(s.SD), pgen.Slice(s.SD), pgen.Array(2, s.SD), pgen.Map(pgen.B("string"), s.SD))
+		},
+		Forms: []string{"top"}, QuickDeep: 50, QuickRand: 16, ThorRand: 300, BatchSize: 22,
+		KeepShape: func(t *pgen.Type) bool { return behaviouralShape(t) },
 		Ops: func(t *pgen.Type, form string) []string {
 			var ops []string
 			if t.Underlying().K == pgen.KMap {
